@@ -64,6 +64,8 @@ def build_panel_state(cfg, values=None):
 def build(cfg, values=None):
     if cfg.get('target') == 'Panel.lb-state-based':
         return build_panel_state(cfg, values)
+    if cfg.get('target') == 'ConeCyl.lb-real-linear-matrices':
+        return build_conecyl_linear(cfg, values)
     return build_conecyl(cfg, values)
 
 
@@ -232,8 +234,77 @@ def build_conecyl(cfg, values=None):
     return obs, [], info
 
 
+def build_conecyl_linear(cfg, values=None):
+    """ConeCyl.lb with the REAL _calc_linear_matrices (conecyl.py): the kernels are contract stubs, k0 = a symbolic matrix and
+    kG0(Fc, P, T) = Fc*G1 + P*G2 + T*G3 with symbolic G1, G2, G3 (linearity in the loads is C16's subject).  The pencil handed to the
+    solver must be the one of the documented combined load case: constant part k0 (+ the geometric stiffness of the loads that are
+    held), variable part the geometric stiffness of the load that is scaled -- each built from its OWN load only"""
+    from ..conesym import ConeCtx
+    from ..shadow import ShimCOO
+    ctx = ConeCtx(values=values, seed=cfg.get('seed', 0))
+    V = ctx.V
+    case = cfg['case']
+    W = EigWorld(V, recip=True)
+    obs = []
+    calls = []
+
+    def upper(name, n):
+        rr, cc_, dd = [], [], []
+        for i in range(n):
+            for j in range(i, n):
+                rr.append(i)
+                cc_.append(j)
+                dd.append(V('%s_%d_%d' % (name, i, j)))
+        data = np.zeros(len(dd), dtype=object)
+        for t, v in enumerate(dd):
+            data[t] = v
+        return ShimCOO((data, (rr, cc_)), shape=(n, n))
+
+    def get_linear_matrices(cc_, combined_load_case=None):
+        n = cc_.get_size()
+        K0, G1, G2, G3 = upper('K0', n), upper('G1', n), upper('G2', n), upper('G3', n)
+
+        def fk0(*a):
+            return K0
+
+        def fkG0(Fc, P, T, *a):
+            calls.append((Fc, P, T))
+            tot = ShimCOO((np.zeros(0, dtype=object), ([], [])), shape=(n, n)).tocsr()
+            for load, G in ((Fc, G1), (P, G2), (T, G3)):
+                if not (isinstance(load, (int, float)) and load == 0):
+                    tot = tot + G.tocsr() * load
+            return tot.tocoo()
+        return fk0, fk0, fkG0, fkG0, None
+    with ctx.shadow(extra_stubs={'compmech.conecyl.conecyl.eigsh': W.eigsh, 'compmech.conecyl.modelDB.get_linear_matrices': get_linear_matrices}):
+        cc = ctx.new_cone('clpt_donnell_bc1', 1, 1, 1)
+        cc.r2, cc.L = V('r2'), V('L')
+        cc.alphadeg = V('alphadeg') if cfg.get('cone', True) else 0.
+        cc.Fc, cc.P, cc.T = V('Fc'), V('P'), V('T')
+        cc.num_eigvalues = cfg['num']
+        cc.lb(combined_load_case=case)
+        n = cc.get_size()
+        pos = cc.num0 if hasattr(cc, 'num0') else 3
+        Fc_eff = cc.Nxxtop[0] * (2 * ctx.trig.pi * cc.r2 * cc.cosa)
+        sym = lambda nm, i, j: V('%s_%d_%d' % (nm, min(i, j), max(i, j)))
+        part = {'Fc': lambda i, j: Fc_eff * sym('G1', i, j), 'P': lambda i, j: cc.P * sym('G2', i, j), 'T': lambda i, j: cc.T * sym('G3', i, j)}
+        held, scaled = {None: ((), ('Fc', 'P', 'T')), 0: ((), ('Fc', 'P', 'T')), 1: (('T',), ('Fc',)), 2: (('P',), ('Fc',)), 3: (('Fc',), ('T',))}[case]
+        call = W.calls[-1]
+        Ad, Md = dense_of(call['A']), dense_of(call['M'])
+        if Ad.shape != (n - pos, n - pos):
+            obs.append(('solver-matrix-size', Sym.lift(Ad.shape[0]), Sym.lift(n - pos)))
+        else:
+            for i in range(n - pos):
+                for j in range(n - pos):
+                    I_, J_ = pos + i, pos + j
+                    obs.append(('solver-stiffness-matrix-from-its-own-loads[%d,%d]' % (i, j), Md[i, j], sym('K0', I_, J_) + sum((part[q](I_, J_) for q in held), Sym.lift(0))))
+                    obs.append(('solver-load-matrix-from-its-own-load[%d,%d]' % (i, j), Ad[i, j], sum((part[q](I_, J_) for q in scaled), Sym.lift(0))))
+    assumptions = ctx.trig.circle_constraints() if values is None else []
+    info = {'values': {k: str(v) for k, v in ctx.used_values.items()}}
+    return obs, assumptions, info
+
+
 def job(cfg):
-    if cfg.get('target') in ('ConeCyl.lb', 'Panel.lb-state-based'):
+    if cfg.get('target') in ('ConeCyl.lb', 'Panel.lb-state-based', 'ConeCyl.lb-real-linear-matrices'):
         from .. import kprop
         return kprop.job((__name__, cfg))
     reset()
@@ -444,6 +515,10 @@ def configs(tier, seed):
         out.append({'target': 'Panel.lb-state-based', 'model': model, 'm': 1, 'n': 2, 'nx': 1, 'ny': 2, 'num': 1, 'active': [], 'path': 'sparse',
                     'group': 'Panel.lb-state-based:%s' % model, 'variant': 'panel-state/%s' % model, 'timeout_ms': 300000})
     for case in (None, 1, 2, 3):
+        for cone in (True, False):
+            out.append({'target': 'ConeCyl.lb-real-linear-matrices', 'case': case, 'cone': cone, 'num': 2, 'n': 12, 'active': [], 'path': 'sparse',
+                        'group': 'ConeCyl.lb-real-linear-matrices:combined_load_case=%s:%s' % (case, 'cone' if cone else 'cylinder'), 'm': 1, 'variant': 'conecyl-linear/case=%s' % case})
+    for case in (None, 1, 2, 3):
         out.append({'target': 'ConeCyl.lb', 'case': case, 'num': 2, 'n': 12, 'active': [], 'path': 'sparse', 'group': 'ConeCyl.lb:combined_load_case=%s' % case,
                     'm': 1, 'variant': 'conecyl/case=%s' % case})
     return out
@@ -459,7 +534,7 @@ def main():
     run.encoded('compmech/analysis/linear_buckling.py', 'lb')
     run.encoded('compmech/panel/_panel.py', 'Panel.lb')
     run.encoded('compmech/sparse.py', 'remove_null_cols')
-    run.encoded('compmech/conecyl/conecyl.py', 'ConeCyl.lb (matrices per combined_load_case, multipliers, padding)')
+    run.encoded('compmech/conecyl/conecyl.py', 'ConeCyl.lb (matrices per combined_load_case, multipliers, padding), ConeCyl._calc_linear_matrices (load split per combined_load_case, kernels as linear contract stubs)')
     cf = configs(run.tier, run.seed)
     run.bounds = {'sizes_n': sorted({c['n'] for c in cf}), 'num_eigvalues': sorted({c['num'] for c in cf}), 'paths': ['sparse', 'fallback (first ARPACK call fails)', 'dense'],
                   'null_patterns': 'full, two seeded null amplitudes, three active amplitudes', 'configurations': len(cf)}
